@@ -304,6 +304,7 @@ MONO = ("state-only-advances", "self._state >= old(self._state) and self._state 
 VALID = ("state-valid", "self._state >= 1 and self._state <= 4 and iff(self._transport is None, self._writer is None) and "
                         "implies(self._state == 3, self._decrypt_cipher is not None and self._encrypt_cipher is not None and self._decrypt_cipher._nonce >= 0)")
 NO_DELIVERY = ("delivers-nothing", "ghost.packets == old(ghost.packets)")
+GROWS = ("reports-are-only-added", "len(ghost.reported) >= len(old(ghost.reported))")
 KEEPS_NAME = ("server-name-kept", "self._server_name == old(self._server_name)")
 
 
@@ -378,7 +379,7 @@ def handle_hello_contract():
             P("C04", "name-mismatch-is-a-bad-name-error-carrying-the-received-name",
               f"implies(({OKSEL}) and ({HAS}) and self._expected_name is not None and {NAME} != self._expected_name, "
               f"self._state == 4 and len(ghost.reported) == len(old(ghost.reported)) + 1 and exact_type(last_reported(), BadNameAPIError) and exc_name(last_reported()) == {NAME})"),
-            NO_DELIVERY, MONO, VALID,
+            NO_DELIVERY, MONO, VALID, GROWS,
         ],
         raises={"UnicodeDecodeError": {"kind": "property", "tags": ["C04"], "when": "False"}},
         modifies=FRAME_MODS,
@@ -393,7 +394,7 @@ def error_on_incorrect_preamble_noise_contract():
               "self._state == 4 and len(ghost.reported) == len(old(ghost.reported)) + 1 and "
               "(exact_type(last_reported(), InvalidEncryptionKeyAPIError) if utf8(msg[1:]) == 'Handshake MAC failure' else exact_type(last_reported(), HandshakeAPIError))"),
             ("ready-failed", "fdone(self.ready_future) and implies(not old(fdone(self.ready_future)), has_exc(self.ready_future))"),
-            NO_DELIVERY, MONO, VALID,
+            NO_DELIVERY, MONO, VALID, GROWS,
         ],
         raises={"UnicodeDecodeError": {"kind": "auxiliary", "ensures": [("nothing-happened", "self._state == old(self._state) and ghost.reported == old(ghost.reported) and "
                                                                          "ghost.packets == old(ghost.packets) and fdone(self.ready_future) == old(fdone(self.ready_future))")]}},
@@ -412,7 +413,7 @@ def handle_handshake_contract():
             P("C03", "readiness-signalled-exactly-when-ready", "implies(not old(fdone(self.ready_future)), iff(fdone(self.ready_future) and not has_exc(self.ready_future), self._state == 3))"),
             P("C04", "error-frame-closes-with-a-specific-error",
               "implies(len(msg) > 0 and msg[0] != 0, self._state == 4 and len(ghost.reported) == len(old(ghost.reported)) + 1 and typeof_is(last_reported(), HandshakeAPIError))"),
-            NO_DELIVERY, MONO, VALID,
+            NO_DELIVERY, MONO, VALID, GROWS,
         ],
         # InvalidStateError: the handshake frame raced with the handshake timeout that already failed the readiness wait
         raises={"Exception": {"kind": "property", "tags": ["C04"], "when": "read_message_failed or old(fdone(self.ready_future))",
@@ -433,7 +434,7 @@ def handle_frame_contract():
             P("C03", "delivers-exactly-the-authenticated-message",
               f"frame == aead_enc({K}, old(self._decrypt_cipher._nonce), {D}) and ghost.packets == old(ghost.packets) + ((({D})[0] * 256 + ({D})[1], ({D})[4:]),)"),
             P("C03", "nonce-advances-by-one", "self._decrypt_cipher._nonce == old(self._decrypt_cipher._nonce) + 1"),
-            MONO, VALID,
+            MONO, VALID, GROWS,
         ],
         raises={
             "InvalidTag": {"kind": "property", "ensures": [("forged-frame-delivers-nothing", "pp_raised or ghost.packets == old(ghost.packets)"),
@@ -462,13 +463,17 @@ def noise_data_received_contract():
         requires=[("RI", "RI(self)"), VALID],
         ensures=[P("C03", "each-complete-frame-handled-exactly-once-in-order", f"ghost.handled == old(ghost.handled) + nf_frames({b0})"),
                  P("C03", "retains-exactly-the-partial-tail", f"implies(not nf_bad({b0}), view(self) == nf_tail({b0}))"),
+                 # (C04) a wrong marker byte, in whatever state, ends the session with a protocol error; by the first clause nothing after it is handled
+                 P("C04", "a-wrong-marker-byte-is-a-protocol-error-and-closes", f"implies(nf_bad({b0}), self._state == 4 and len(ghost.reported) > len(old(ghost.reported)) "
+                                                                                "and exact_type(last_reported(), ProtocolAPIError))"),
                  ("RI", "RI(self)", "auxiliary")],
         raises={"Exception": {"ensures": [("RI", "RI(self)")], "kind": "auxiliary"}},
         modifies=FRAME_MODS + ["ghost.handled", "self._buffer", "self._buffer_len", "self._pos", "self._decrypt_cipher._nonce"],
         loops={"loop#1": dict(
             invariant=["RI(self)", VALID[1],
                        f"ghost.handled + nf_frames(view(self)) == old(ghost.handled) + nf_frames({b0})",
-                       f"nf_tail(view(self)) == nf_tail({b0})", f"nf_bad(view(self)) == nf_bad({b0})"],
+                       f"nf_tail(view(self)) == nf_tail({b0})", f"nf_bad(view(self)) == nf_bad({b0})",
+                       "len(ghost.reported) >= len(old(ghost.reported))"],
             modifies=FRAME_MODS + ["ghost.handled", "self._buffer", "self._buffer_len", "self._pos", "self._decrypt_cipher._nonce"],
             decreases="self._buffer_len",
             body_hints=["unfold(nf_frames(view(self)))", "unfold(nf_tail(view(self)))", "unfold(nf_bad(view(self)))", "assert view(self)[0:] == view(self)",
